@@ -8,8 +8,8 @@ use serde_json::{json, Value};
 use std::collections::BTreeSet;
 use txtpp::{Config, Mode, Verbosity};
 
-pub const FILES: [&str; 4] = ["a", "b", "c", "d"];
-pub const POS: [(&str, usize); 4] = [("root", 0), ("middle", 1), ("leaf", 2), ("sibling", 3)];
+pub const FILES: [&str; 5] = ["a", "b", "c", "d", "e"];
+pub const POS: [(&str, usize); 5] = [("root", 0), ("middle", 1), ("leaf", 2), ("sibling", 3), ("sibling-with-empty-output", 4)];
 pub const KINDS: [&str; 15] = [
     "temp-target-is-a-directory",
     "command-killed-by-signal",
@@ -20,6 +20,10 @@ pub const KINDS: [&str; 15] = [
 
 fn source(i: usize) -> String {
     let x = FILES[i];
+    if i == 4 {
+        // nothing but an empty directive used as a comment: the output is empty
+        return "#TXTPP# this file produces an empty output\n".to_string();
+    }
     let dep = match i {
         0 => "TXTPP#include b.txt\n",
         1 => "TXTPP#include c.txt\n",
@@ -30,6 +34,9 @@ fn source(i: usize) -> String {
 
 fn oracle(i: usize) -> String {
     let x = FILES[i];
+    if i == 4 {
+        return String::new();
+    }
     let dep = match i {
         0 => oracle(1),
         1 => oracle(2),
@@ -40,11 +47,13 @@ fn oracle(i: usize) -> String {
 
 fn base_tree(built: bool) -> Tree {
     let mut t = Tree::new();
-    for i in 0..4 {
+    for i in 0..5 {
         tfile(&mut t, &format!("{}.txt.txtpp", FILES[i]), source(i));
         if built {
             tfile(&mut t, &format!("{}.txt", FILES[i]), oracle(i));
-            tfile(&mut t, &format!("{}.tmp", FILES[i]), format!("{} body", FILES[i]));
+            if i < 4 {
+                tfile(&mut t, &format!("{}.tmp", FILES[i]), format!("{} body", FILES[i]));
+            }
         }
     }
     tfile(&mut t, "plain.txt", "plain\n");
@@ -118,8 +127,8 @@ pub fn faulty_tree(kind: &str, pos: usize, mode: &Mode) -> Option<Tree> {
         }
         "output-is-dev-full" => {
             // only where no other file includes this output: a build that wrongly goes on would read /dev/full for ever
-            if pos == 1 || pos == 2 {
-                return None;
+            if pos == 1 || pos == 2 || pos == 4 {
+                return None; // (an empty output writes no byte: nothing can fail)
             }
             if *mode != Mode::Build {
                 return None; // other modes read the existing file first: /dev/full never ends (outside D1)
@@ -171,7 +180,7 @@ impl Env {
             shell_cmd: String::new(),
             inputs: inputs.iter().map(|s| s.to_string()).collect(),
             recursive: false,
-            num_threads: threads,
+            num_threads: if threads == 8 { 9 } else { threads },
             mode: mode.clone(),
             verbosity: Verbosity::Quiet,
             trailing_newline: true,
@@ -232,7 +241,7 @@ fn limit_case(rep: &Report, env: &Env, limit_exec: &std::path::Path, maxsize: us
     let code = st.and_then(|s| s.code()).unwrap_or(-1);
     let expect_ok = n >= maxsize;
     let mut complete = true;
-    for jx in 0..4 {
+    for jx in 0..5 {
         if std::fs::read(env.base().join(format!("{}.txt", FILES[jx]))).ok().as_deref() != Some(oracle(jx).as_bytes()) {
             complete = false;
         }
@@ -254,7 +263,7 @@ pub fn run_c04(tier: &str) -> i32 {
     rep.set("bounds", json!("project a->b->c plus unrelated d; 15 fault kinds (incl. RLIMIT_FSIZE hit by one file's output / temp target, in-process) x 4 positions x the modes in which the kind is a fault x input selections {., root only, all by name} x ALL task completion orders; RLIMIT_FSIZE = every byte count from 0 to the largest generated file + 1 on the production binary (-j1, -j4; build and --needed)"));
     rep.assume("faults are real OS-level faults (no injection hook); permission faults cannot be produced as root; /dev/full is used as an output only in Build mode");
     let mut jobs = vec![];
-    let sels: Vec<Vec<&str>> = if thorough { vec![vec!["."], vec!["a.txt", "d.txt"], vec!["d.txt", "c.txt", "b.txt", "a.txt"]] } else { vec![vec!["."], vec!["a.txt", "d.txt"]] };
+    let sels: Vec<Vec<&str>> = if thorough { vec![vec!["."], vec!["a.txt", "d.txt", "e.txt"], vec!["e.txt", "d.txt", "c.txt", "b.txt", "a.txt"]] } else { vec![vec!["."], vec!["a.txt", "d.txt", "e.txt"]] };
     for kind in KINDS {
         for (pname, pos) in POS {
             for mode in [Mode::Build, Mode::InMemoryBuild, Mode::Verify, Mode::Clean] {
@@ -316,7 +325,7 @@ pub fn run_c04(tier: &str) -> i32 {
                     );
                 }
                 if *kind == "none" && r.verdict.is_ok() && *mode != Mode::Verify {
-                    for j in 0..4 {
+                    for j in 0..5 {
                         let got = std::fs::read(env.base().join(format!("{}.txt", FILES[j]))).ok();
                         if got.as_deref() != Some(oracle(j).as_bytes()) {
                             rep.violate("baseline-output", format!("{desc}: {}.txt is {:?}", FILES[j], got.map(|b| show(&b))), json!({"engine": "X", "kind": kind, "pos": pos, "mode": format!("{:?}", mode), "inputs": sel_now, "schedule": r.choices(), "threads": threads}));
